@@ -271,7 +271,7 @@ func c15Exec(c *Case, generate bool) (*Violation, *execStats) {
 	g := gen.New(&rs, c.TreeP)
 	s := &c15State{t: t, vals: map[int]reflect.Value{}, st: st}
 	s.root, s.parent = t.instantiate(g)
-	s.pool = t.keyPool(g, 3+int(c.Seed%2))
+	s.pool = t.keyPool(g, 3+int(c.Seed%4))
 	if len(s.pool) < 2 {
 		panic("C15: key pool too small for " + t.String())
 	}
